@@ -351,8 +351,16 @@ class Implements(NameAndModuleComparisonMixin,
             declared_names = ', ' + declared_names
         return f'classImplements({name}{declared_names})'
 
+    # The object this specification was created for; unlike ``inherit``
+    # it is kept by the *only* forms, so the specification can always be
+    # pickled by reference.
+    _implements_for = None
+
     def __reduce__(self):
-        return implementedBy, (self.inherit, )
+        cls = self.inherit
+        if cls is None:
+            cls = self._implements_for
+        return implementedBy, (cls, )
 
 
 def _implements_name(ob):
@@ -481,6 +489,7 @@ def implementedBy(
         spec = (spec, )          # tuplefy, as it might be just an int
         spec = Implements.named(spec_name, *_normalizeargs(spec))
         spec.inherit = None      # old-style implies no inherit
+        spec._implements_for = cls
         del cls.__implemented__  # get rid of the old-style declaration
     else:
         try:
@@ -492,6 +501,7 @@ def implementedBy(
 
         spec = Implements.named(spec_name, *[implementedBy(c) for c in bases])
         spec.inherit = cls
+        spec._implements_for = cls
 
     try:
         cls.__implemented__ = spec
